@@ -48,6 +48,7 @@ FIXED = [
  ("C20", "F38-cursor-column-overflow", "cursor beyond column 65,528", "history file with a line of 65,529 characters, key Up (or 65,530 characters and Up, Left; or 65,528 and Up, a character): print_prompt computed `(PROMPT.len() + cursor) as u16` = 65,535 and crossterm's MoveToColumn added 1 - panic `attempt to add with overflow`, status 101, terminal left in raw mode"),
  ("C08", "F39-short-write-truncates", "writes a regular or new destination next to itself", "file-size limit of 1 KiB (`ulimit -f 1`, SIGXFSZ ignored; a full disk or quota behaves alike) and a 2,004-byte image: `lace compile` exited 1 with the previous contents of the destination replaced by the first 1,024 bytes of the new image (`File::create` truncates before `write_all` fails); an absent destination was left behind as a 1,024-byte file"),
  ("C08", "F41-link-or-long-name-truncated", "replaces the file the link names", "file-size limit of 1 KiB (SIGXFSZ ignored) and a 2,004-byte image, destination a symbolic link to a regular file, or a (new or existing) file whose 249-byte name left no room for the temporary file's name `.NAME.PID.tmp`: `lace compile` exited 1 with the file behind the link / the destination holding the first 1,024 bytes of the new image - both fell back to the direct, truncating write"),
+ ("C08", "F42-dangling-link-partial-file", "dangling symbolic link writes the file", "file-size limit of 1 KiB (SIGXFSZ ignored), a 2,004-byte image and a destination `out/latest.lc3` that is a symbolic link to a file that does not exist yet: `lace compile` exited 1 and left the first 1,024 bytes of the image in a new file behind the link (the dangling link was written through directly)"),
  ("C14", "F40-stdin-not-utf8", "bytes on the debugger's piped stdin which are not UTF-8", "`printf 'move r1 1\\n\\377\\nmove r2 2\\nregisters\\nexit\\n' | lace debug --minimal p.asm` (also `echo caf\\351`, a character truncated by the line end or by end of input, an encoded surrogate): Stdin::read_char panicked (`uh oh: ()`, stdin.rs:23, status 101) - the line was neither parsed nor rejected, the session and the program's run were lost (C09: `echo` + `quit` no longer equal the plain run)"),
  ("C20", "F27-ctrl-right-trailing-spaces", "Ctrl+Right from a word followed only by spaces", "keys a, space, space, Ctrl+Left, Ctrl+Right, +, Enter submitted `a+  ` instead of `a  +` (cursor stopped after the word instead of the end of line)"),
 ]
